@@ -15,6 +15,7 @@ RULE = (
     "grid kind x every linear index in [-3, size+3) x every native index with each component in "
     "[-2, dim+2) x numpy/bool/float index types is executed.  Non-trivial: cases on non-square grids "
     "or conventions with several grid kinds (out-of-range probes are part of every case)."
+    " Also: datasets that declare their dimensions in the opposite order to the convention's, conventions constructed by hand with explicit coordinate names, meshes whose edge dimension is named but carried by no variable, and index components given as numpy int8/uint8/int16/... on grids with more cells than those types can count."
 )
 LEVEL_TEXT = ('every grid kind x every linear index with margin x every native index with margin, on every grid shape up to 6x6 (11x2) of every convention and every mesh of the library, compared with row-major arithmetic; out-of-range must raise')
 LEVEL_NOTE = ('numpy, the builders in mc/builders.py; shapes above the bound are not explored')
